@@ -1057,7 +1057,7 @@ def run_document(src, tier, seed, only=None):
 
     # CPU budget per document (big.ods: every snapshot is a C14N of a 1.5 MB tree): what is not reached is counted
     t_start = time.process_time()
-    total = 24 if tier == "quick" else 100
+    total = 24 if tier == "quick" else 80
     first_pass = total * 2 / 3
     for idx, ent in enumerate(ents):
         if only is None and time.process_time() - t_start > first_pass:
@@ -1159,7 +1159,7 @@ def sources(tier, seed):
         samples = [p for p in samples if p.name not in QUICK_SKIP]
     for p in samples:
         out.append(dict(id="sample:" + p.name, kind="sample", path=str(p)))
-    ngen = 3 if tier == "quick" else 12
+    ngen = 3 if tier == "quick" else 8
     for i in range(ngen):
         out.append(dict(id="generated:text:%d" % i, kind="generated", spec=dict(gen="text", seed=seed * 1000 + i)))
         out.append(dict(id="generated:sheet:%d" % i, kind="generated", spec=dict(gen="sheet", seed=seed * 1000 + i)))
@@ -1168,7 +1168,7 @@ def sources(tier, seed):
         out.append(dict(id="generated:sparse:" + name, kind="generated", spec=dict(gen="template", name=name, sparse=True, seed=0)))
     for i in range(1 if tier == "quick" else 3):
         out.append(dict(id="generated:sparse:rawtext:%d" % i, kind="generated", spec=dict(gen="rawtext", seed=seed * 1000 + 50 + i, sparse=True)))
-    nraw = 3 if tier == "quick" else 10
+    nraw = 3 if tier == "quick" else 6
     for i in range(nraw):
         out.append(dict(id="generated:rawtext:%d" % i, kind="generated", spec=dict(gen="rawtext", seed=seed * 1000 + i)))
         out.append(dict(id="generated:rawsheet:%d" % i, kind="generated", spec=dict(gen="rawsheet", seed=seed * 1000 + i)))
